@@ -638,7 +638,7 @@ func doCheck(id, tier string) int {
 	l := load(rels, ov)
 	known := loadKnown()
 
-	workDir := filepath.Join(verifDir, ".work", id+"-"+tier)
+	workDir := filepath.Join(verifDir, ".work", fmt.Sprintf("%s-%s-%d", id, tier, os.Getpid()))
 	os.RemoveAll(workDir)
 	os.MkdirAll(workDir, 0o755)
 	if os.Getenv("SYMGO_KEEP") == "" {
@@ -741,7 +741,7 @@ func doCheck(id, tier string) int {
 				switch {
 				case o == "ok":
 					diffAgree++
-				case o == "", o == "no-outcome", o == "timeout", strings.Contains(o, "replay diverged"), o == "assume-failed":
+				case o == "", o == "no-outcome", o == "timeout", strings.Contains(o, "replay diverged"), o == "assume-failed", strings.HasPrefix(o, "error:"):
 					diffMismatch = append(diffMismatch, fmt.Sprintf("%s: differential sample did not run to completion natively (outcome %q)", c.h.Func, o))
 				default:
 					// the engine found this path clean, the real code does not: keep the input and report it
